@@ -1126,8 +1126,9 @@ def find_replace(
 
         # The replacement is inserted at range_start, that is after the indentation of the line on
         # which the match starts: its first line is already in place, the others follow that line.
-        line_start = source.rfind("\n", 0, range_start) + 1
-        matched_first_line = source[line_start:range_end].split("\n", 1)[0]
+        # Lines end at \n, \r\n and \r (see core.split_lines).
+        line_start = max(source.rfind("\n", 0, range_start), source.rfind("\r", 0, range_start)) + 1
+        matched_first_line = re.split(r"\r\n|\r|\n", source[line_start:range_end], maxsplit=1)[0]
         # The indentation is copied as it is written (a tab stays a tab): the same width in blanks
         # under a tab-indented line is inconsistent indentation to python.
         indentation = ""
